@@ -58,6 +58,18 @@ def pool_cases():
     out.append(("Literal[None,'null']", typing.Literal[None, "null"], ["null", None]))
     out.append(("Literal[True,'true']", typing.Literal[True, "true"], ["true", True]))
     out.append(("Literal['7',7]", typing.Literal["7", 7], ["7", 7]))
+    # None declared in the middle of a union whose earlier member stringifies anything
+    import datetime
+    import uuid
+    out.append(("Union[UUID,None,date]", typing.Union[uuid.UUID, None, datetime.date],
+                [None, uuid.UUID(int=7), datetime.date(2024, 2, 29)]))
+    # several aware temporals denoting one instant at different UTC offsets inside one value: each keeps its own offset
+    tz = lambda h, m=0: datetime.timezone(datetime.timedelta(hours=h, minutes=m))
+    inst = datetime.datetime(2024, 3, 10, 12, 0, 0, 250, tzinfo=tz(0))
+    same_instant = [inst, inst.astimezone(tz(-5)), inst.astimezone(tz(5, 30)), inst.astimezone(tz(-19))]
+    out.append(("list[datetime](one instant, four offsets)", list[datetime.datetime], [same_instant, same_instant[::-1]]))
+    times = [datetime.time(12, 0, tzinfo=tz(0)), datetime.time(7, 0, tzinfo=tz(-5)), datetime.time(17, 30, tzinfo=tz(5, 30))]
+    out.append(("list[time](equal aware times, three offsets)", list[datetime.time], [times, times[::-1]]))
     return out
 
 
